@@ -638,6 +638,8 @@ def gen_cases(chk, rng):
         yield "nest", t, False
     for t in COLON_ADVERB_TEXTS:
         yield "colonadv", t, False
+    for t in ["1e9", "25e+3", "1e+5", "1e-5", "12e3", "1e0", "1e1", "-1e3", "[1e3 2]", "1e99", "1e999", "1.5e3", "1e", "1e+", "1ee5", "1e5e5", "1e5.5"]:
+        yield "num", t, True
 
 
 SAFE_EVAL = re.compile(r"\.(?!f\b)[A-Za-z]")
@@ -660,8 +662,12 @@ class Oracle:
         self.probes = []          # (text, first canonical result) re-parsed at the end of the run
         self.error_texts = []
         self.ncheck = 0
+        self.init_sentinels()
+
+    def init_sentinels(self):
         # programs parsed (and functions defined) BEFORE everything else on the long-lived interpreter; their structure
         # (operator arities included) and what they evaluate to must survive every later parse
+        impl = self.impl
         self.sentinels = []
         for t in SENTINEL_DEFS + SENTINEL_CALLS:
             r, _ = impl.parse(t)
@@ -727,6 +733,7 @@ class Oracle:
         if broken is not None:
             broken.update({"kind": "earlier-program-changed-by-later-parse", "text": text, "case": kind,
                            "history": SENTINEL_DEFS + [broken["earlier_text"]]})
+            self.init_sentinels()          # so that the next texts are not blamed for this one
             return broken, c1, n1
         if ev and r1[0] == "ok" and can_eval(text):
             p1 = r1[1][1]
@@ -971,6 +978,91 @@ def check_call_cache(chk, rng, impl):
     return None
 
 
+# number literals whose conversion could cost more than their length: run in a child process under a CPU-time limit, with a
+# tracemalloc peak budget (the event budget counts lines and calls; one huge bignum operation consumes none)
+NUMBER_TEXTS = ["1e9", "25e+3", "1e99", "1e999", "12e+999", "1e9999", "1e+9999", "1e99999", "-1e99999", "1e-99999", "[1e99999 2]",
+                "9e999999", "1e+999999", "f(1e999999;2)", "{x+1e999999}", "1e-999999", "1.5e999999", "9" * 4000, "-" + "9" * 4000,
+                "1." + "3" * 4000, "0." + "0" * 4000 + "1", "1" + "0" * 300 + "e10", "1e" + "0" * 3000 + "5", "[" + "9" * 2000 + " 1e9999]",
+                "1e9999999", "1e99999999", "123456789e987654321", "1e999999999999"]
+NUM_MEM_BUDGET = lambda n: 100000 + 200 * n        # bytes allocated at the peak while parsing a text of n characters
+NUM_CPU_BUDGET = 3.0                               # seconds of process CPU for one text (the honest cost is microseconds)
+NUM_CHILD = r"""
+import sys, json, time, tracemalloc
+from klongpy import KlongInterpreter
+texts = json.loads(sys.stdin.read())
+k = KlongInterpreter()
+k.prog("1e5 [1 2] f(1)")          # warm up caches and lazy imports
+tracemalloc.start()
+for i, t in enumerate(texts):
+    print("START %d" % i, flush=True)
+    tracemalloc.reset_peak()
+    base = tracemalloc.get_traced_memory()[0]
+    t0 = time.process_time()
+    try:
+        r = k.prog(t)
+        out = "ok"
+    except RecursionError:
+        out = "rec"
+    except MemoryError:
+        out = "MemoryError"
+    except Exception as e:
+        out = type(e).__name__
+    cpu = time.process_time() - t0
+    peak = tracemalloc.get_traced_memory()[1] - base
+    del r
+    print("DONE " + json.dumps({"i": i, "cpu": cpu, "peak": peak, "outcome": out}), flush=True)
+"""
+
+
+def check_numbers(chk, texts=None):
+    """-> failure dict | None"""
+    global NUMBER_TEXTS
+    if texts is not None:
+        saved, NUMBER_TEXTS = NUMBER_TEXTS, texts
+        try:
+            return check_numbers(chk)
+        finally:
+            NUMBER_TEXTS = saved
+    import resource
+    import subprocess
+    from .common import PY
+
+    def limits():
+        resource.setrlimit(resource.RLIMIT_CPU, (60, 60))
+        resource.setrlimit(resource.RLIMIT_AS, (6 << 30, 6 << 30))
+    env = dict(os.environ, PYTHONPATH=REPO + ":" + VERIF, PYTHONHASHSEED="0")
+    p = subprocess.Popen([PY, "-W", "ignore", "-c", NUM_CHILD], stdin=subprocess.PIPE, stdout=subprocess.PIPE, stderr=subprocess.PIPE,
+                         env=env, preexec_fn=limits)
+    try:
+        p.stdin.write(json.dumps(NUMBER_TEXTS).encode())
+        p.stdin.close()
+        started = None
+        for raw in p.stdout:
+            line = raw.decode().strip()
+            if line.startswith("START "):
+                started = int(line[6:])
+            elif line.startswith("DONE "):
+                d = json.loads(line[5:])
+                t = NUMBER_TEXTS[d["i"]]
+                chk.count("evaluations")
+                chk.count("cases_number_literal")
+                started = None
+                if d["peak"] > NUM_MEM_BUDGET(len(t)) or d["cpu"] > NUM_CPU_BUDGET:
+                    return {"kind": "hang", "what": "work not polynomial in the length of the text (number literal)", "text": t,
+                            "length": len(t), "peak_bytes": d["peak"], "peak_budget": NUM_MEM_BUDGET(len(t)),
+                            "cpu_s": round(d["cpu"], 3), "cpu_budget_s": NUM_CPU_BUDGET}
+        rc = p.wait()
+        if started is not None or rc != 0:
+            t = NUMBER_TEXTS[started] if started is not None else "?"
+            return {"kind": "hang", "what": "child process parsing number literals was killed (CPU/memory limit) or crashed, rc=%s" % rc,
+                    "text": t, "stderr": p.stderr.read().decode()[-300:]}
+        return None
+    finally:
+        if p.poll() is None:
+            p.kill()
+            p.wait()
+
+
 def check_lexer(chk, impl):
     """kg_read(t, 0, read_neg, ignore_newline) alone, all four flag combinations, every string of <= 2 tokens"""
     from klongpy.parser import kg_read
@@ -1069,8 +1161,11 @@ def run(tier, replay=None):
     try:
         # replay of the (repaired) finding R6 and of the Coq witnesses on the implementation
         known = chk.match_known("C12-comment-empty-marker")
+        numbad = check_numbers(chk)
         cases = itertools.chain((("witness", w, False) for w in WITNESS_TEXTS), gen_cases(chk, rng))
         prop_bad, corr_bad, seen = check_all(chk, rng, impl, cases)
+        if numbad is not None:
+            prop_bad.insert(0, numbad)
         for b in check_lexer(chk, impl):
             (prop_bad if b["kind"] == "hang" else corr_bad).append(b)
         if len(prop_bad) < 5:
@@ -1123,12 +1218,24 @@ def replay(path):
         print(json.dumps(body, indent=1))
         return 0
     chk = Check("C12", "quick")
+    if "peak_budget" in rp or "child process" in str(rp.get("what", "")):
+        bad = check_numbers(chk, [text])
+        print("text      :", repr(text[:100]), "(%d characters)" % len(text))
+        print("expected  : parsed within %d bytes at the allocation peak and %.1f s CPU (child process, CPU limit 60 s)" % (
+            NUM_MEM_BUDGET(len(text)), NUM_CPU_BUDGET))
+        print("actual    :", "within the budgets" if bad is None else {k: v for k, v in bad.items() if k != "text"})
+        return 0
     chk.generate(generate())
     chk.build_model()
     impl = Impl()
     try:
+        kept = []
         for h in history:
-            print("history   :", repr(h), "->", impl.parse(h)[0][:2])
+            ht, hm = (h, None) if isinstance(h, str) else (h[0], h[1])
+            hr = impl.parse(ht, module=hm)[0]
+            print("history   :", repr(ht), "module", hm, "->", hr[0])
+            if hr[0] == "ok":
+                kept.append((ht, hr[1][1], repr([impl.dump(y) for y in hr[1][1]])))
         r1, n1 = impl.parse(text)
         r2, n2 = impl.parse(text)
         c1 = ("ok", impl.dump_prog(r1[1])) if r1[0] == "ok" else r1
@@ -1136,6 +1243,15 @@ def replay(path):
         m = impl.mres(chk.run_model([model_req(text)])[0])
     finally:
         impl.close()
+    for ht, hp, hd in kept:
+        try:
+            now = repr([impl.dump(y) for y in hp])
+        except Exception as e:   # noqa
+            now = "dump failed: %r" % e
+        if now != hd:
+            print("earlier program changed by the parse of the text:", repr(ht))
+            print("   before :", hd[:300])
+            print("   after  :", now[:300])
     print("text      :", repr(text))
     print("expected  : terminates within %d events, both parses equal and equal to a fresh interpreter's; model says %s" % (BUDGET(len(text)), repr(m)[:300]))
     print("actual #1 : %s (%d events)" % (repr(c1)[:300], n1))
